@@ -1779,20 +1779,24 @@ impl PatternFusion for GroupedQueryAttentionMatMulFusion {
         let mut alpha = None;
         let mut transpose_rhs = false;
 
-        if let Some(transpose_op) = pat_match
-            .node_id("transpose")
-            .and_then(|id| graph.get_operator::<Transpose>(id))
+        if let Some(transpose_id) = pat_match.node_id("transpose") {
+            let transpose_op = graph
+                .get_operator::<Transpose>(transpose_id)
+                .ok_or(FusionError::NoMatch)?;
+
             // Permute must transpose only last two dims
-            && transpose_op.perm.as_deref() == Some(&[0, 1, 3, 2])
-        {
+            if transpose_op.perm.as_deref() != Some(&[0, 1, 3, 2]) {
+                return Err(FusionError::CheckFailed(
+                    "transpose does not swap last two dims",
+                ));
+            }
             transpose_rhs = true;
 
-            if let Some(matmul) = pat_match
+            let matmul = pat_match
                 .node_id("scaled_matmul")
                 .and_then(|id| graph.get_operator::<FusedMatMul>(id))
-            {
-                alpha = matmul.alpha;
-            }
+                .ok_or(FusionError::NoMatch)?;
+            alpha = matmul.alpha;
         }
 
         Ok(GroupedQueryAttentionMatMul {
